@@ -67,7 +67,7 @@ func eq(c *core.Ctx, sig string, want, got protoreflect.Message, wantName, gotNa
 }
 
 func run(c *core.Ctx) {
-	c.Rule = "all ordered pairs (a,b) with a in M(T,ka), b in M(T,kb) over the slot alphabet of each listed type (generated and dynamicpb): Merge(a,b) == Unmarshal(Marshal(a)||Marshal(b)) == Unmarshal{Merge}(Marshal(b)) into a; and all ordered pairs (x,y) of decodable wire-record sequences: Unmarshal(x||y) == Merge(Unmarshal(x),Unmarshal(y)) with lazy and eager operands. distinct_nontrivial = distinct (a,b) name pairs with both non-empty"
+	c.Rule = "all ordered pairs (a,b) with a in M(T,ka), b in M(T,kb) over the slot alphabet of each listed type (generated and dynamicpb): Merge(a,b) == Unmarshal(Marshal(a)||Marshal(b)) == Unmarshal{Merge}(Marshal(b)) into a; and all ordered pairs (x,y) of decodable wire-record sequences: Unmarshal(x||y) == Merge(Unmarshal(x),Unmarshal(y)) with lazy and eager operands; and ALL histories of <=d operations (d=4 quick, 5 thorough) over three registers of one type (register 0 starts from a decoded message with unknown fields): Merge(ri<-rj), Unmarshal{Merge}(record->ri) for 4 records (two unknown, two known), ri=Clone(rj), Reset(ri); after every history each register must equal Unmarshal of the concatenation of everything merged into it (every history is its own state: no merging of states, because what registers share is exactly what is being probed). distinct_nontrivial = distinct (a,b) name pairs with both non-empty"
 	c.Exhaustive = true
 	mo := proto.MarshalOptions{AllowPartial: true}
 	var planOut []map[string]any
@@ -187,5 +187,16 @@ func run(c *core.Ctx) {
 		}
 	}
 	c.Bounds["plans"] = planOut
+	var histOut []map[string]any
+	for _, f := range []univ.Flavor{univ.Gen("goproto.proto.test.TestAllTypes"), univ.Gen("opaque.goproto.proto.testeditions.TestAllTypes"), univ.Dyn("goproto.proto.test.TestAllTypes"), univ.Gen("opaque.lazy_tree.Node"), univ.Gen("goproto.proto.test.TestAllExtensions")} {
+		if c.Expired() {
+			c.Exhaustive = false
+			break
+		}
+		if r := histories(c, f, core.Pick(c, 4, 5)); r != nil {
+			histOut = append(histOut, r)
+		}
+	}
+	c.Bounds["merge_histories"] = histOut
 	c.Assume("AllowPartial everywhere; expected values are built from slot lists, never with Clone")
 }
